@@ -1,6 +1,7 @@
 """C16 / C17 driver: record acceptance / parking verdicts, generator runs, device tables, shipped and derived layouts."""
 import itertools
 import json
+import os
 import random
 import sys
 import warnings
@@ -93,6 +94,8 @@ def c17(out, nrandom, seed, small_max):
     rows = []
     rnd = random.Random(seed)
     layouts = [Repetition9Code(), Repetition9Round6Code(), Repetition5Round4Code()]
+    if os.environ.get('VERIF_LAYOUT_ORDER') == 'reversed':      # the layouts are singletons sharing a base class: the order of first use must not matter
+        layouts = list(reversed(layouts))
     for lay in layouts:
         base = [lay.get_gate_sequence_at_index(i) for i in range(lay.gate_sequence_count)]
         must = [[g.ancilla_id.id, d.id] for g in lay.parity_group_x + lay.parity_group_z for d in g.data_ids]
